@@ -76,7 +76,8 @@ def write_evidence(prop, tier, seed, level, total, wall, extra, violations):
         "property_id": prop, "tier": tier, "seed": seed, "level": level, "coverage": cov,
         "assumptions": getattr(pm, "ASSUMPTIONS", []) + [
             "a clean batch is evidence, not proof: the search samples histories and fault placements",
-            "SimFS models a POSIX file system for the calls productmd makes (open r/w/rb, exists, listdir); other I/O routes are not simulated",
+            "the simulated disk is a real private directory behind interposed builtins.open / io.open / os.*: file semantics are the kernel's; only READ-side faults are injected (no claimed property gives write-side faults an oracle)",
+            "wall-clock time enters only as a per-run watchdog (VERIF_RUN_TIMEOUT_S, default 60 s; a run takes milliseconds) that turns a call which never returns into a violation",
         ],
         "wall_s": round(wall, 3), "violations": violations,
     }
